@@ -12,7 +12,7 @@ from pathlib import Path
 HERE = Path(__file__).resolve().parent.parent
 REPO = Path("/repo")
 props = sorted(p.stem for p in (HERE / "props").glob("C*.py"))
-seeds = sorted(d.name for d in (HERE / "seeded").iterdir() if d.is_dir() and (d / "patch.diff").exists())
+seeds = sorted(d.name for d in (HERE / "seeded").iterdir() if d.is_dir() and (d / "patch.diff").exists() and not d.name.startswith("_"))
 only = sys.argv[1:] or seeds
 
 
